@@ -19,6 +19,8 @@
 (*         used                                                            *)
 (*   wmts  (KVP) a listed value; no value or "default": the default of the *)
 (*         layer; anything else is refused                                 *)
+(*   rest  (WMTS RESTful, URL template with a variable for the dimension)  *)
+(*         like wmts, the value is a path segment                          *)
 (*   tms   has no dimensions: the default of the layer                     *)
 (* A tile that the sources do not deliver at its own level (resolution     *)
 (* range of the source) is made of other tiles (downscale_tiles /          *)
@@ -45,7 +47,7 @@ CONSTANTS Tiles,        \* tile ids
           CapsBroken    \* \subseteq CapsDocs
 
 Keys == Values \cup {"none", "other"}
-Svc == {"wms", "wmts", "tms"}
+Svc == {"wms", "wmts", "rest", "tms"}
 ValueClass == Values \cup {"absent", "default", "other"}
 CapsDocs == {"wms111", "wms130", "wmts_kvp", "wmts_rest"}
 
@@ -61,6 +63,9 @@ Init == store = {} /\ stale = {} /\ last = NoStep
 EffKey(svc, d) ==
   CASE svc = "wms"  -> IF d = "absent" THEN "none" ELSE IF d = "default" THEN "refused" ELSE d    \* ("default" is not a WMS notion: not sent)
     [] svc = "wmts" -> IF d \in Values THEN d ELSE IF d \in {"absent", "default"} THEN Default ELSE "refused"
+    \* WMTS RESTful with a URL template that has a variable for the dimension: the value is a path segment ("default" stands for
+    \* the default of the layer, it cannot be left out)
+    [] svc = "rest" -> IF d \in Values THEN d ELSE IF d = "default" THEN Default ELSE "refused"
     [] OTHER        -> IF d = "absent" THEN Default ELSE "refused"                                  \* tms: no way to say a value
 
 Leaves(t) == IF Children[t] = {} THEN {t} ELSE Children[t]
@@ -73,6 +78,7 @@ Request(svc, t, d) ==
       created == UNION {MetaOf[c] : c \in missing}
   IN /\ svc = "wms" => d # "default"          \* (the class "default" does not exist for the WMS)
      /\ svc = "tms" => d = "absent"           \* (a TMS request cannot say a value)
+     /\ svc = "rest" => d # "absent"          \* (a RESTful request cannot leave the path segment out)
      /\ IF k = "refused"
           THEN /\ last' = [NoStep EXCEPT !.op = "req", !.svc = svc, !.t = t, !.d = d, !.key = k, !.out = "refused"]
                /\ UNCHANGED <<store, stale>>
